@@ -47,7 +47,8 @@ const A2: &str = "#[a2(x)]";
 /// substitute (source, target) pairs: valid ones and one per documented error kind
 fn sub_args() -> Vec<(String, String)> {
     let mut v = vec![];
-    for s in [P, "p::a::P<A>", Q] {
+    // (`::p::a::P` is a second spelling of P: the leading colons are not part of the key)
+    for s in [P, "p::a::P<A>", Q, "::p::a::P"] {
         for t in ["::t::X", "::t::Y<A>", "crate::Z"] {
             v.push((s.to_string(), t.to_string()));
         }
@@ -86,13 +87,15 @@ pub fn alphabet() -> Vec<Call> {
         v.push(Call::InsertIfAbsent(s.clone(), t.clone()));
     }
     let a = sub_args();
+    // index of the first invalid pair (the valid ones come first)
+    let inv = a.iter().position(|(s, t)| pair_error(s, t).is_some()).expect("invalid pairs exist");
     // extend: single pairs, and two pairs where the rejected one comes first / second
     v.push(Call::Extend(vec![a[0].clone(), a[7].clone()]));
-    v.push(Call::Extend(vec![a[1].clone(), a[9].clone()]));
-    v.push(Call::Extend(vec![a[9].clone(), a[1].clone()]));
+    v.push(Call::Extend(vec![a[1].clone(), a[inv].clone()]));
+    v.push(Call::Extend(vec![a[inv].clone(), a[1].clone()]));
     v.push(Call::Extend(vec![
         a[2].clone(),
-        a[10].clone(),
+        a[inv + 1].clone(),
         a[4].clone(),
     ]));
     v.push(Call::Extend(vec![]));
@@ -131,7 +134,7 @@ pub enum Expected {
 }
 
 fn source_key(s: &str) -> String {
-    squash(s.split(['<', '(']).next().unwrap_or(""))
+    squash(s.split(['<', '(']).next().unwrap_or("")).trim_start_matches("::").to_string()
 }
 
 /// documented error kind of one substitute pair, or None if valid
